@@ -22,11 +22,11 @@ func init() { checks["C14"] = c14{} }
 
 func (c14) Level() string { return "fault_enumeration" }
 
-const c14QuickVec, c14ThoroughVec = 24, 216
+const c14QuickVec, c14ThoroughVec = 36, 216
 
 func (c14) NumCases(tier string) int {
 	if tier == "thorough" {
-		return 600 * c14ThoroughVec
+		return 1200 * c14ThoroughVec
 	}
 	return 150 * c14QuickVec
 }
